@@ -134,51 +134,59 @@ def vogp_ad_runs(ctx, viol, st):
         finally:
             mod.get_gpytorch_model_w_known_hyperparams = old
         refined, discarded = set(), set()
-        info = {"d": d, "depth_max": depth, "run": run_i}
+        extra_mode = (run_i % 2 == 1)
+        info = {"d": d, "depth_max": depth, "run": run_i, "extra_evaluate_refine": extra_mode}
         for step in range(60 if ctx.quick else 200):
-            S0, P0, n0 = set(algo.S), set(algo.P), len(algo.design_space.points)
-            try:
-                done = algo.run_one_step()
-            except Exception as e:
-                viol.append({"signature": "vogp_ad-raised", "message": f"VOGP_AD step {step} raised {type(e).__name__}: {str(e)[:120]}", "replay": {"kind": "run", **info}})
-                break
-            st["vogp_ad_steps"] += 1
-            ds = algo.design_space
-            S1, P1, n1 = set(algo.S), set(algo.P), len(ds.points)
-            new = set(range(n0, n1))
-            if new:
-                parents = [i for i in (S0 | P0) if i not in S1 and i not in P1 and i not in (S0 - S1 - P1 - new if False else set())]
-                # the refined node: the one whose children were appended
-                gone = [i for i in (S0 | P0) if i not in (S1 | P1)]
-                par = [i for i in gone if ds.point_depths[i] + 1 == ds.point_depths[n0]]
-                cand = [i for i in par if all(ds.cells[i][k][0] <= ds.cells[n0][k][0] and ds.cells[n0][k][1] <= ds.cells[i][k][1] for k in range(d))]
-                if len(new) != 2 ** d or not cand:
-                    viol.append({"signature": "refine-bookkeeping", "message": f"step {step}: {len(new)} nodes appended, no refined parent found", "replay": {"kind": "run", **info}})
-                else:
-                    p = cand[0]; refined.add(p)
-                    same = (p in S0 and new <= S1) or (p in P0 and new <= P1)
-                    if not same:
-                        viol.append({"signature": "children-in-other-set", "message": f"step {step}: refined node {p} (in {'S' if p in S0 else 'P'}) but children {sorted(new)} are in S={sorted(S1 & new)} P={sorted(P1 & new)}", "replay": {"kind": "run", **info}})
-            discarded |= {i for i in S0 if i not in S1 and i not in P1 and i not in refined}
-            active = S1 | P1
-            # leaves, depths, declared at max depth
-            if active & refined:
-                viol.append({"signature": "active-not-leaf", "message": f"step {step}: active nodes {sorted(active & refined)} were refined earlier", "replay": {"kind": "run", **info}})
-            bad = [i for i in P1 if ds.point_depths[i] != depth]
-            if bad:
-                viol.append({"signature": "declared-not-at-max-depth", "message": f"step {step}: designs {bad} in P have depths {[ds.point_depths[i] for i in bad]} but the maximum depth is {depth}", "replay": {"kind": "run", **info}})
-            if any(ds.point_depths[i] > depth for i in range(n1)):
-                viol.append({"signature": "depth-exceeds-max", "message": f"step {step}: a node is deeper than depth_max", "replay": {"kind": "run", **info}})
-            # tiling: leaves = active + discarded; volumes add to 1 and interiors are pairwise disjoint
-            leaves = sorted(active | discarded)
-            vol = sum(np.prod([Fraction(c[1]) - Fraction(c[0]) for c in [(F(a), F(b)) for a, b in ds.cells[i]]]) for i in leaves)
-            disjoint = True
-            for x, y in itertools.combinations(leaves, 2):
-                if all(max(ds.cells[x][k][0], ds.cells[y][k][0]) < min(ds.cells[x][k][1], ds.cells[y][k][1]) for k in range(d)):
-                    disjoint = False; break
-            if vol != 1 or not disjoint:
-                viol.append({"signature": "leaves-do-not-tile", "message": f"step {step}: active+discarded leaves have total volume {float(vol)} / disjoint={disjoint}", "replay": {"kind": "run", **info}})
-            if done:
+            finished = False
+            for op in (("step", "extra") if extra_mode else ("step",)):
+                # 'extra': the phases are public methods; the library's own tests call evaluate_refine() directly after a step
+                if op == "extra" and (finished or not algo.S):
+                    continue
+                S0, P0, n0 = set(algo.S), set(algo.P), len(algo.design_space.points)
+                try:
+                    done = algo.run_one_step() if op == "step" else bool(algo.evaluate_refine() and False)
+                except Exception as e:
+                    viol.append({"signature": "vogp_ad-raised", "message": f"VOGP_AD step {step} raised {type(e).__name__}: {str(e)[:120]}", "replay": {"kind": "run", **info}})
+                    break
+                st["vogp_ad_steps"] += 1
+                ds = algo.design_space
+                S1, P1, n1 = set(algo.S), set(algo.P), len(ds.points)
+                new = set(range(n0, n1))
+                if new:
+                    parents = [i for i in (S0 | P0) if i not in S1 and i not in P1 and i not in (S0 - S1 - P1 - new if False else set())]
+                    # the refined node: the one whose children were appended
+                    gone = [i for i in (S0 | P0) if i not in (S1 | P1)]
+                    par = [i for i in gone if ds.point_depths[i] + 1 == ds.point_depths[n0]]
+                    cand = [i for i in par if all(ds.cells[i][k][0] <= ds.cells[n0][k][0] and ds.cells[n0][k][1] <= ds.cells[i][k][1] for k in range(d))]
+                    if len(new) != 2 ** d or not cand:
+                        viol.append({"signature": "refine-bookkeeping", "message": f"step {step}: {len(new)} nodes appended, no refined parent found", "replay": {"kind": "run", **info}})
+                    else:
+                        p = cand[0]; refined.add(p)
+                        same = (p in S0 and new <= S1) or (p in P0 and new <= P1)
+                        if not same:
+                            viol.append({"signature": "children-in-other-set", "message": f"step {step}: refined node {p} (in {'S' if p in S0 else 'P'}) but children {sorted(new)} are in S={sorted(S1 & new)} P={sorted(P1 & new)}", "replay": {"kind": "run", **info}})
+                discarded |= {i for i in S0 if i not in S1 and i not in P1 and i not in refined}
+                active = S1 | P1
+                # leaves, depths, declared at max depth
+                if active & refined:
+                    viol.append({"signature": "active-not-leaf", "message": f"step {step}: active nodes {sorted(active & refined)} were refined earlier", "replay": {"kind": "run", **info}})
+                bad = [i for i in P1 if ds.point_depths[i] != depth]
+                if bad:
+                    viol.append({"signature": "declared-not-at-max-depth", "message": f"step {step}: designs {bad} in P have depths {[ds.point_depths[i] for i in bad]} but the maximum depth is {depth}", "replay": {"kind": "run", **info}})
+                if any(ds.point_depths[i] > depth for i in range(n1)):
+                    viol.append({"signature": "depth-exceeds-max", "message": f"step {step}: a node is deeper than depth_max", "replay": {"kind": "run", **info}})
+                # tiling: leaves = active + discarded; volumes add to 1 and interiors are pairwise disjoint
+                leaves = sorted(active | discarded)
+                vol = sum(np.prod([Fraction(c[1]) - Fraction(c[0]) for c in [(F(a), F(b)) for a, b in ds.cells[i]]]) for i in leaves)
+                disjoint = True
+                for x, y in itertools.combinations(leaves, 2):
+                    if all(max(ds.cells[x][k][0], ds.cells[y][k][0]) < min(ds.cells[x][k][1], ds.cells[y][k][1]) for k in range(d)):
+                        disjoint = False; break
+                if vol != 1 or not disjoint:
+                    viol.append({"signature": "leaves-do-not-tile", "message": f"step {step}: active+discarded leaves have total volume {float(vol)} / disjoint={disjoint}", "replay": {"kind": "run", **info}})
+                if done:
+                    finished = True
+            if finished:
                 break
 
 
